@@ -243,7 +243,7 @@ static void ptr_cast_pair(mon::Rng& rng)
   // R, L pointer types; source pointers at assorted in-region offsets, and null
   auto cellpp = Wd::tptr<R>(*SB, 512); // a sandbox cell holding a pointer (tainted_volatile source)
   for (int i = 0; i < mon::tier(40, 1000); i++) {
-    uint64_t off = (i == 0) ? 1 /* offset 0 is the null representation */ : (i == 1 ? Wd::size(*SB) - 1 : (i == 2 ? 8 : rng.below(Wd::size(*SB))));
+    uint64_t off = (i == 0) ? 1 /* offset 0 is the null representation */ : (i == 1 ? Wd::size(*SB) - 1 : (i == 2 ? 8 : 1 + rng.below(Wd::size(*SB) - 1)));
     bool null = (i == 3);
     tainted<R, S> src = nullptr;
     if (!null) src = sandbox_reinterpret_cast<R>(Wd::tptr<char>(*SB, off));
